@@ -126,18 +126,6 @@ theorem from_to_strict_lawful [DecidableEq O] (B : Backend) (hB : B.Lawful) (d :
   simp only [Res.ok_bind]
   rw [(fromStrict_spec _ (pack_wf _ hw)).1, unpack_pack _ rfl]
 
-/-- a lawful-looking backend that numbers the edgeless graph backwards: the round trip then
-    returns a diagram that is isomorphic but NOT equal (so `IdCC` cannot be dropped from
-    `to_from_strict`) -/
-def revBackend : Backend :=
-  { vecBackend with cc := fun s t n =>
-      if s.isEmpty then ((List.range n).reverse, n) else vecBackend.cc s t n }
-
-example : (LOHG.fromStrict exF >>= LOHG.toStrict revBackend) =
-    .ok ⟨⟨[3, 3, 2], 4⟩, ⟨[1], 4⟩,
-      ⟨⟨⟨[0, 2], 3⟩, ⟨[2, 2], 4⟩⟩, ⟨⟨[1, 1], 3⟩, ⟨[2, 1], 4⟩⟩, ["d", "c", "b", "a"], ["k", "m"]⟩⟩ := by
-  decide
-
 /-- a well-formed strict diagram with two operations (one of arity 0 → 1, one 2 → 1 with a
     repeated source node), a repeated input and an unused node -/
 def exF : OHG String String :=
@@ -152,6 +140,18 @@ example : exF.wf = true ∧ LOHG.fromStrict exF = .ok exD ∧ exD.wf = true ∧
     exD.hypergraph.quotient = ([], []) := by decide
 
 example : (LOHG.toStrict vecBackend exD >>= LOHG.fromStrict) = .ok exD := by decide
+
+/-- a lawful-looking backend that numbers the edgeless graph backwards: the round trip then
+    returns a diagram that is isomorphic but NOT equal (so `IdCC` cannot be dropped from
+    `to_from_strict`) -/
+def revBackend : Backend :=
+  { vecBackend with cc := fun s t n =>
+      if s.isEmpty then ((List.range n).reverse, n) else vecBackend.cc s t n }
+
+example : (LOHG.fromStrict exF >>= LOHG.toStrict revBackend) =
+    .ok ⟨⟨[3, 3, 2], 4⟩, ⟨[1], 4⟩,
+      ⟨⟨⟨[0, 2], 3⟩, ⟨[2, 2], 4⟩⟩, ⟨⟨[1, 1], 3⟩, ⟨[2, 1], 4⟩⟩, ["d", "c", "b", "a"], ["k", "m"]⟩⟩ := by
+  rfl
 
 /-- the hypothesis "no pending unification" cannot be dropped: the pairs are consumed -/
 example :
@@ -204,19 +204,17 @@ theorem lax_compose_fields (f g r : LOHG O A) (h : LOHG.laxCompose f g = .ok r) 
     exact ⟨rfl, rfl, rfl, rfl, rfl, rfl, rfl, rfl, rfl, rfl⟩
   · cases h
 
-/-- the pending pairs added by `lax_compose`, position by position -/
-theorem lax_compose_pairs (f g r : LOHG O A) (h : LOHG.laxCompose f g = .ok r) :
+/-- the pending pairs added by `lax_compose`, position by position (the two pending lists of a
+    well-formed diagram have equal length, so the pairs of the tensor come first, untouched) -/
+theorem lax_compose_pairs (f g r : LOHG O A) (h : LOHG.laxCompose f g = .ok r)
+    (hl : (LOHG.tensor f g).hypergraph.quotient.1.length =
+      (LOHG.tensor f g).hypergraph.quotient.2.length) :
     r.hypergraph.quotient.1.zip r.hypergraph.quotient.2 =
       (LOHG.tensor f g).hypergraph.quotient.1.zip (LOHG.tensor f g).hypergraph.quotient.2 ++
-        (f.targets.zip (g.sources.map (· + f.hypergraph.nodes.length))) ∨
-    (LOHG.tensor f g).hypergraph.quotient.1.length ≠ (LOHG.tensor f g).hypergraph.quotient.2.length := by
-  by_cases hl : (LOHG.tensor f g).hypergraph.quotient.1.length =
-      (LOHG.tensor f g).hypergraph.quotient.2.length
-  · left
-    have := (lax_compose_fields f g r h).2.2.2.2.2.2.2.2.2
-    rw [this]
-    exact List.zip_append hl
-  · right; exact hl
+        (f.targets.zip (g.sources.map (· + f.hypergraph.nodes.length))) := by
+  have := (lax_compose_fields f g r h).2.2.2.2.2.2.2.2.2
+  rw [this]
+  exact List.zip_append hl
 
 /-- closed form of the checked composition on well-formed arguments -/
 theorem compose_eq [DecidableEq O] (f g : LOHG O A) (hf : f.wf = true) (hg : g.wf = true) :
@@ -305,5 +303,143 @@ theorem append_eq (f g : LOHG O A) :
        ((LOHG.tensor f g).sources.drop f.sources.length,
         (LOHG.tensor f g).targets.drop f.targets.length)) := by
   simp [LOHG.append, LOHG.tensor, LHG.coproductAssign]
+
+/-! ### strictification commutes with the operations: what holds ON THE NOSE
+
+For diagrams without pending unifications and a backend with the identity numbering (`IdCC`, e.g.
+the Vec backend) strictification is literally `pack`, and it commutes with identity, dagger,
+tensor, spiders and symmetries as an EQUALITY of data. -/
+
+theorem strict_identity [DecidableEq O] (B : Backend) (hB : IdCC B) (a : List O) :
+    LOHG.toStrict B (LOHG.identity a : LOHG O A) = OHG.identity a := by
+  rw [toStrict_nopending B hB _ (by simp [LOHG.wf, LHG.wf, LOHG.identity, LHG.discrete, LHG.empty]; intro x hx; exact hx)
+    rfl]
+  simp [OHG.identity, FinFun.identity_eq, pack, LOHG.identity, LHG.discrete, LHG.empty, HG.discrete,
+    IC.ofSegs, IC.initial, FinFun.initial]
+
+theorem strict_dagger [DecidableEq O] (B : Backend) (hB : IdCC B) (d : LOHG O A)
+    (hwf : d.wf = true) (hq : d.hypergraph.quotient = ([], [])) :
+    LOHG.toStrict B d.dagger = (LOHG.toStrict B d >>= fun r => .ok r.dagger) := by
+  have hwf' : d.dagger.wf = true := by
+    obtain ⟨h1, h2, h3⟩ := (lohg_wf_iff d).1 hwf
+    exact (lohg_wf_iff _).2 ⟨h1, h3, h2⟩
+  rw [toStrict_nopending B hB d hwf hq, toStrict_nopending B hB d.dagger hwf' hq]
+  rfl
+
+theorem strict_tensor [DecidableEq O] (B : Backend) (hB : IdCC B) (d1 d2 : LOHG O A)
+    (h1 : d1.wf = true) (h2 : d2.wf = true) (q1 : d1.hypergraph.quotient = ([], []))
+    (q2 : d2.hypergraph.quotient = ([], [])) :
+    LOHG.toStrict B (LOHG.tensor d1 d2) =
+      (do let a ← LOHG.toStrict B d1; let b ← LOHG.toStrict B d2; OHG.tensor a b) := by
+  have hq : (LOHG.tensor d1 d2).hypergraph.quotient = ([], []) := by
+    simp [LOHG.tensor, LHG.coproduct, q1, q2]
+  rw [toStrict_nopending B hB d1 h1 q1, toStrict_nopending B hB d2 h2 q2,
+    toStrict_nopending B hB _ (tensor_wf d1 d2 h1 h2) hq]
+  simp only [Res.ok_bind, tensor_pack]
+
+/-- strictifying a lax spider gives the strict spider (same definedness, same value) -/
+theorem strict_spider [DecidableEq O] (B : Backend) (hB : IdCC B) (s t : FinFun) (w : List O)
+    (hs : s.WF) (ht : t.WF) :
+    (LOHG.spider s t w >>= LOHG.toStrict B) = (OHG.spider s t w : Res (OHG O A)) := by
+  by_cases h : s.target = w.length ∧ t.target = w.length
+  · have hwf : (⟨s, t, HG.discrete w⟩ : OHG O A).wf = true := by
+      rw [ohg_wf_iff]
+      exact ⟨by simp [HG.wf, HG.discrete, IC.wf, IC.initial, FinFun.initial, IC.valid, Prim.sum,
+        FinFun.wf, IC.len, FinFun.source], hs, ht, h.1, h.2⟩
+    have e1 : (LOHG.spider s t w : Res (LOHG O A)) = .ok (unpack ⟨s, t, HG.discrete w⟩) := by
+      unfold LOHG.spider
+      rw [if_neg (by omega)]
+      rfl
+    have e2 : (OHG.spider s t w : Res (OHG O A)) = .ok ⟨s, t, HG.discrete w⟩ := by
+      unfold OHG.spider
+      rw [if_neg (by omega)]
+    rw [e1, e2]
+    simp only [Res.ok_bind]
+    rw [toStrict_nopending B hB _ (unpack_wf _ hwf) rfl, pack_unpack _ hwf]
+  · have e1 : (LOHG.spider s t w : Res (LOHG O A)) = .none := by
+      unfold LOHG.spider
+      rw [if_pos (by omega)]
+    have e2 : (OHG.spider s t w : Res (OHG O A)) = .none := by
+      unfold OHG.spider
+      rw [if_pos (by omega)]
+    rw [e1, e2]
+    rfl
+
+/-- strictifying the lax symmetry gives the strict symmetry -/
+theorem strict_twist [DecidableEq O] (B : Backend) (hB : IdCC B) (a b : List O) :
+    (LOHG.twist a b >>= LOHG.toStrict B) = (OHG.twist a b : Res (OHG O A)) := by
+  have htw : (OHG.twist a b : Res (OHG O A)) =
+      .ok ⟨⟨List.range' b.length a.length ++ List.range b.length, a.length + b.length⟩,
+        ⟨List.range (a.length + b.length), a.length + b.length⟩, HG.discrete (b ++ a)⟩ := by
+    simp [OHG.twist, FinFun.identity_eq, FinFun.twist_eq]
+  have hwf : (⟨⟨List.range' b.length a.length ++ List.range b.length, a.length + b.length⟩,
+        ⟨List.range (a.length + b.length), a.length + b.length⟩,
+        HG.discrete (b ++ a)⟩ : OHG O A).wf = true := by
+    rw [ohg_wf_iff]
+    refine ⟨by simp [HG.wf, HG.discrete, IC.wf, IC.initial, FinFun.initial, IC.valid, Prim.sum,
+      FinFun.wf, IC.len, FinFun.source], ?_, ?_, by simp [HG.discrete]; omega,
+      by simp [HG.discrete]; omega⟩
+    · intro x hx
+      simp only [List.mem_append, List.mem_range'_1, List.mem_range] at hx
+      show x < a.length + b.length
+      omega
+    · intro x hx
+      simpa using hx
+  unfold LOHG.twist
+  rw [htw]
+  simp only [Res.ok_bind]
+  exact to_from_strict B hB _ hwf
+
+example : (LOHG.twist ["a", "b"] ["c"] >>= LOHG.toStrict vecBackend) =
+    (OHG.twist ["a", "b"] ["c"] : Res (OHG String String)) := by rfl
+
+/-! ### strictification commutes with the operations: the general clauses (NOT proved here)
+
+With pending unifications strictification is the quotient by the equivalence they generate
+(property C09), and the commutation only holds up to isomorphism.  The full statements are
+recorded below; proving them needs the quotient characterisation of `LOHG.quotient` (owned by
+`OH.C09`) together with a "quotient in stages" lemma for `IsQuot`.  The instances proved in
+this file are: operands without pending unifications and an `IdCC` backend, where they hold as
+equalities (`strict_identity`, `strict_dagger`, `strict_tensor`, `strict_spider`,
+`strict_twist`), and the round trips (`to_from_strict`, `from_to_strict`, and their `_lawful`
+versions up to `≅`). -/
+
+/-- strict(f ; g) ≅ strict(f) ; strict(g) whenever the types match -/
+def strict_comp_statement : Prop :=
+  ∀ {O A : Type} [DecidableEq O] (B : Backend), B.Lawful → ∀ (f g : LOHG O A) (sf sg : OHG O A),
+    f.wf = true → g.wf = true → LOHG.toStrict B f = .ok sf → LOHG.toStrict B g = .ok sg →
+    f.target = g.source →
+    ∃ c r r', LOHG.compose f g = .ok c ∧ LOHG.toStrict B c = .ok r ∧
+      OHG.compose B sf sg = .ok r' ∧ r.toPlain ≅ r'.toPlain
+
+/-- strict(f ⊗ g) ≅ strict(f) ⊗ strict(g) -/
+def strict_tensor_statement : Prop :=
+  ∀ {O A : Type} [DecidableEq O] (B : Backend), B.Lawful → ∀ (f g : LOHG O A) (sf sg : OHG O A),
+    f.wf = true → g.wf = true → LOHG.toStrict B f = .ok sf → LOHG.toStrict B g = .ok sg →
+    ∃ r r', LOHG.toStrict B (LOHG.tensor f g) = .ok r ∧ OHG.tensor sf sg = .ok r' ∧
+      r.toPlain ≅ r'.toPlain
+
+/-- strict(f†) ≅ strict(f)† -/
+def strict_dagger_statement : Prop :=
+  ∀ {O A : Type} [DecidableEq O] (B : Backend), B.Lawful → ∀ (f : LOHG O A) (sf : OHG O A),
+    f.wf = true → LOHG.toStrict B f = .ok sf →
+    ∃ r, LOHG.toStrict B f.dagger = .ok r ∧ r.toPlain ≅ sf.dagger.toPlain
+
+/-- strict(identity), strict(symmetry), strict(spider) ≅ the strict ones, for every lawful
+    backend -/
+def strict_structure_statement : Prop :=
+  ∀ {O A : Type} [DecidableEq O] (B : Backend), B.Lawful →
+    (∀ (a : List O) (i : OHG O A), OHG.identity a = .ok i →
+      ∃ r, LOHG.toStrict B (LOHG.identity a : LOHG O A) = .ok r ∧ r.toPlain ≅ i.toPlain) ∧
+    (∀ (a b : List O) (x : OHG O A), OHG.twist a b = .ok x →
+      ∃ r, (LOHG.twist a b >>= LOHG.toStrict B) = .ok r ∧ r.toPlain ≅ x.toPlain) ∧
+    (∀ (s t : FinFun) (w : List O) (x : OHG O A), s.WF → t.WF → OHG.spider s t w = .ok x →
+      ∃ r, (LOHG.spider s t w >>= LOHG.toStrict B) = .ok r ∧ r.toPlain ≅ x.toPlain)
+
+/-- strict(singleton) ≅ singleton -/
+def strict_singleton_statement : Prop :=
+  ∀ {O A : Type} [DecidableEq O] (B : Backend), B.Lawful → ∀ (x : A) (a b : List O) (sx : OHG O A),
+    OHG.singleton x a b = .ok sx →
+    ∃ r, LOHG.toStrict B (LOHG.singleton x a b) = .ok r ∧ r.toPlain ≅ sx.toPlain
 
 end OH.C10
